@@ -91,7 +91,7 @@ Next == \/ \E d \in Dims : NewShape(d)
         \/ \E o \in held : Mutate(o)
         \/ \E m \in Mgrs, n \in Names \cup {NoneName}, o \in held : Set(m, n, o)
         \/ \E m \in Mgrs, n \in Names \cup {NoneName} : Get(m, n)
-        \/ \E m \in Mgrs, n \in Names : Del(m, n)
+        \/ \E m \in Mgrs, n \in Names \cup {NoneName} : Del(m, n)      \* (None is never the name of a group: deleting it is a KeyError)
         \/ \E m \in Mgrs : CopyMgr(m) \/ Keys(m)
         \/ \E w \in Owners, m \in Mgrs : Assign(w, m)
         \/ \E w \in Owners : TransformOwner(w)
